@@ -168,6 +168,18 @@ def constructors(tier="quick", seed=0, workers=16):
     return {"evaluations": len(cases), "failures": fails[:60], "n_failures": len(fails), "universe": len(universe())}
 
 
+def ascii_pairs(workers=16):
+    """F5: AnyBetween / AnyButBetween for EVERY ordered pair of ASCII end points (the documented exception when start >= end) and
+    AnyFrom / AnyButFrom for every pair of ASCII characters: membership over the whole universe of this module (all code points
+    below U+0250 and the distinguished ones) against the requested set"""
+    cases = [("between", [chr(x), chr(y)], neg) for x in range(128) for y in range(128) for neg in (False, True)]
+    cases += [("from", [chr(x), chr(y)], neg) for x in range(128) for y in range(x, 128) for neg in (False, True)]
+    with multiprocessing.Pool(workers) as pool:
+        res = pool.map(_ctor_case, cases, chunksize=256)
+    fails = [r for r in res if r]
+    return {"evaluations": len(cases), "failures": fails[:20], "n_failures": len(fails)}
+
+
 POOL = ["AnyLetter()", "AnyLowercaseLetter()", "AnyUppercaseLetter()", "AnyDigit()", "AnyWordChar()", "AnyWordChar(is_global=True)",
         "AnyPunctuation()", "AnyWhitespace()", "AnyGermanLetter()", "AnyGreekLetter()", "AnyHebrewLetter()",
         "AnyBetween('a', 'c')", "AnyBetween('a', 'z')", "AnyBetween('b', 'z')", "AnyBetween('b', 'c')", "AnyBetween('c', 'f')",
